@@ -382,6 +382,23 @@ theorem generated_function_balanced (isFn : Nat → Bool) (es : List Expr) (gs g
     exact tail_call_reenters_at_entry_depth _ ann hv D S A ⟨0, List.replicate f.params.length .val ++ D, S, A⟩ c
       rfl rfl rfl rfl hreach hpc
 
+/-- The full statement `GenBalanced` is FALSE for the model as it stands — the side condition
+"bodies are not empty" of `gen_balanced` is needed: the model generator accepts `(fn [])` (the
+real builders refuse an empty function body with a compile error) and compiles it to
+`addFuncScope; removeScope; ret`, which returns with NO value (`legacy_empty_begin_counterexample`
+is this very listing). -/
+theorem genBalanced_needs_nonempty_bodies : ¬ GenBalanced := by
+  intro hG
+  obtain ⟨_, hfns⟩ := hG (fun _ => false) [.fn [] none []] { fns := [] }
+    ((compileBegin (fun _ => false) {} [.fn [] none []] { fns := [] }).toOption.get!.2)
+    [.createClosure 0] false rfl
+  obtain ⟨ann, hv⟩ := hfns 0 (Nat.zero_le _) _ rfl (by decide)
+  obtain ⟨c, hreach, hret, hdata⟩ := legacy_empty_begin_counterexample [] 0 0
+  have := checker_sound _ ann hv [] 0 0 ⟨0, [], 0, 0⟩ c rfl rfl rfl rfl hreach
+  have h1 := (this.2.1 hret).1
+  rw [hdata] at h1
+  cases h1
+
 /-! ### Non-vacuity -/
 
 /-- `(for outer: [(def i 0) (< i 3) (set i (+ i 1))]
